@@ -19,4 +19,8 @@ KERNELS = {
     'arith_rem': [
         dict(name='rem', impl=r'impl<S> ScalarFunction for Rem<S>'),
     ],
+    'comparison': [
+        dict(name='flat_cmp', impl=r'impl<O, S> ScalarFunction for FlatComparison<O, S>'),
+        dict(name='dec_cmp', impl=r'impl<O, D> ScalarFunction for DecimalComparison<O, D>'),
+    ],
 }
